@@ -244,6 +244,36 @@ where
     kani::assert(false, "C14.second_claim.must_not_return");
 }
 
+/// Claiming an UNALLOCATED arena (C14): the guard starts from the unallocated state; whether or not a chunk
+/// was created through it, after reclaim the original is unclaimed and continues exactly where the guard stopped.
+pub(crate) fn ob_claim_unallocated<S>()
+where
+    S: BumpAllocatorSettings<GuaranteedAllocated = crate::settings::False>,
+{
+    log_reset();
+    let bump = RawBump::<LogAlloc, S>::new();
+    let claimant = bump.claim();
+    kani::assert(bump.is_claimed() && claimant.chunk.get().is_unallocated(), "C14.claim_unallocated.guard_holds_unallocated_state");
+    kani::assert(bump.alloc::<AllocError>(Layout::new::<u32>()).is_err(), "C14.claim_unallocated.original_fails");
+    let use_guard: bool = kani::any();
+    if use_guard {
+        unsafe { BUDGET = 0 };
+        // the base allocator refuses: the guard stays unallocated, but the attempt went through it
+        kani::assert(claimant.alloc::<AllocError>(Layout::new::<u32>()).is_err(), "C07.claim_unallocated.guard_alloc_refused");
+        unsafe { BUDGET = usize::MAX };
+    }
+    let guard_chunk = claimant.chunk.get().header().as_ptr() as usize;
+    bump.reclaim(&claimant);
+    kani::assert(!bump.is_claimed(), "C14.claim_unallocated.reclaim_unclaims");
+    kani::assert(bump.chunk.get().header().as_ptr() as usize == guard_chunk, "C14.claim_unallocated.continues_where_guard_stopped");
+    kani::assert(bump.chunk.get().is_unallocated(), "C14.claim_unallocated.still_unallocated");
+    // and the original can be claimed again (a second claim would panic if it were still claimed)
+    let again = bump.claim();
+    bump.reclaim(&again);
+    kani::assert(!bump.is_claimed(), "C14.claim_unallocated.can_be_claimed_again");
+    kani::cover!(use_guard, "guard-used");
+}
+
 /// `BumpClaimGuard` (C14): new = claim, drop = reclaim, deref gives the claimant.
 pub(crate) fn ob_claim_guard<A, S>(k: usize, hint: usize)
 where
@@ -344,6 +374,18 @@ inst!(try_with_mut_dn1, unwind 4, ob_try_with, LogAlloc, SDn1, 2, 64, true);
 #[kani::unwind(3)]
 pub(crate) fn unallocated_up1() {
     ob_unallocated::<SUp1Un>(300);
+}
+
+#[kani::proof]
+#[kani::unwind(3)]
+pub(crate) fn claim_unallocated_up1() {
+    ob_claim_unallocated::<SUp1Un>();
+}
+
+#[kani::proof]
+#[kani::unwind(3)]
+pub(crate) fn claim_unallocated_dn4() {
+    ob_claim_unallocated::<SDn4Un>();
 }
 
 #[kani::proof]
